@@ -6,6 +6,7 @@ package main
 // first and raises FAIL, which keeps the count): code that swallows the error sees the following statements succeed.
 
 import (
+	sqlite3 "github.com/mattn/go-sqlite3"
 	"context"
 	"database/sql"
 	"encoding/json"
@@ -365,7 +366,12 @@ func (w *bsWorld) exec(r *Run, line string) string {
 		bn := bigOf(ws[1]).Uint64()
 		blk := sync.Block{Num: bn, Hash: common.BigToHash(new(big.Int).SetUint64(bn*7919 + 13))}
 		hasRm := false
-		if evs, ok := bsEventsViaLogs(bn, ws[3:]); ok {
+		evs, ok := bsEventsViaLogs(bn, ws[3:])
+		if bsHandlerFailure != "" {
+			r.Fail(bsHandlerFailure, append([]string{"new"}, w.lines...))
+			bsHandlerFailure = ""
+		}
+		if ok {
 			// bridge events as the syncer gets them: ABI-encoded logs through the downloader's own log handlers, the
 			// sender and calldata from the transaction trace
 			blk.Events = evs
@@ -377,6 +383,65 @@ func (w *bsWorld) exec(r *Run, line string) string {
 					hasRm = true
 				}
 			}
+		}
+		commitFault := ws[2] == "9000"
+		if commitFault {
+			// the COMMIT of the block's transaction fails once (SQLite's commit hook vetoes it; the engine rolls the transaction
+			// back, as it does on a full disk or an I/O error at commit time). The pool is held to ONE connection meanwhile so
+			// that the hook sits on the connection the processor uses.
+			pool := w.p.DB()
+			pool.SetMaxOpenConns(1)
+			fired := false
+			setHook := func(f func() int) {
+				c, e := pool.Conn(ctx)
+				must(e)
+				must(c.Raw(func(dc any) error { dc.(*sqlite3.SQLiteConn).RegisterCommitHook(f); return nil }))
+				must(c.Close())
+			}
+			setHook(func() int {
+				if fired {
+					return 0
+				}
+				fired = true
+				return 1
+			})
+			err := w.p.ProcessBlock(ctx, blk)
+			setHook(nil)
+			pool.SetMaxOpenConns(0)
+			var nrow int
+			must(w.ctl.QueryRow("SELECT COUNT(*) FROM block WHERE num = $1", bn).Scan(&nrow))
+			stored := nrow > 0
+			switch {
+			case !fired:
+				obs = bsErr(err) // the transaction never reached its commit
+			case err == nil && !stored:
+				r.Fail(fmt.Sprintf("[C01,C07] the commit of block %d failed (the engine rolled the transaction back) and ProcessBlock reported success: the driver moves on, the block's deposits have no root, no row", bn),
+					append([]string{"new"}, w.lines...))
+				obs = "ok"
+			case err != nil && stored:
+				r.Fail(fmt.Sprintf("[C07] ProcessBlock(%d) returned `%v` although the block is stored", bn, err), append([]string{"new"}, w.lines...))
+				obs = "err fault"
+			case err != nil:
+				obs = "err fault"
+			default:
+				obs = "ok"
+			}
+			r.Count("branch:commit-fault")
+			if obs == "ok" && stored {
+				w.survivors = append(w.survivors, "blk "+ws[1]+" - "+strings.Join(ws[3:], " "))
+				w.survNums = append(w.survNums, bn)
+				if hasRm {
+					w.rmLegacySeen = true
+				}
+			}
+			// for the model a failed commit is a fault that undoes the whole transaction (statement 0); a block that never
+			// reached its commit is the plain block
+			if fired {
+				r.Emit("blk "+ws[1]+" 0 "+strings.Join(ws[3:], " "), obs)
+			} else {
+				r.Emit("blk "+ws[1]+" - "+strings.Join(ws[3:], " "), obs)
+			}
+			return obs
 		}
 		if ws[2] != "-" {
 			_, err := w.ctl.Exec(`UPDATE verif_fault SET armed=1, target=$1, n=0`, bigOf(ws[2]).Uint64())
@@ -632,6 +697,7 @@ func (c *bsEthClient) Call(result any, method string, args ...any) error {
 
 var bsLogClient = &bsEthClient{traces: map[common.Hash]string{}}
 var bsAppender sync.LogAppenderMap
+var bsHandlerFailure string // set by bsEventsViaLogs, reported by the caller (which has the run and the history)
 
 // possible when the block holds bridge events only, all with the block's timestamp, and the native-token flag is what the
 // handler derives (origin address zero or the gas token)
@@ -671,6 +737,16 @@ func bsEventsViaLogs(bn uint64, toks []string) ([]interface{}, bool) {
 		l.TxHash = common.BytesToHash(unhx(f[11]))
 		l.Address = bsBridgeAddr
 		// the transaction: an outer call from the sender to some contract which calls the bridge with the calldata
+		if l.TxHash[31]%4 == 0 {
+			// the node's RPC cannot serve this transaction's trace right now: the handler has to report the failure (the
+			// downloader then calls it again) and must leave the block as it was — never skip the deposit
+			before := len(b.Events)
+			if err := bsAppender[l.Topics[0]](b, l); err == nil || len(b.Events) != before {
+				bsHandlerFailure = fmt.Sprintf("[C01,C05] the bridge log handler answered `%v` and left %d new event(s) in block %d although the trace of transaction %s could not be fetched: the deposit with count %s is dropped (or recorded without its call) instead of being retried",
+					err, len(b.Events)-before, bn, l.TxHash.Hex()[:10], f[2])
+				b.Events = b.Events[:before]
+			}
+		}
 		bsLogClient.traces[l.TxHash] = fmt.Sprintf(`{"from":"%s","to":"%s","input":"0x%s","calls":[]}`,
 			common.BytesToAddress(unhx(f[12])).Hex(), bsBridgeAddr.Hex(), strings.TrimPrefix(hx(unhx(f[13])), "-"))
 		must(bsAppender[l.Topics[0]](b, l))
